@@ -91,6 +91,13 @@ CLAIMS.update({
    tech="TLA+ reference decoders evaluated by TLC as oracle in both directions; exhaustive negotiation table replayed through real sessions and judged by TLC", ref="DESIGN.md section 7 C18"),
 })
 
+CLAIMS.update({
+ "C17": dict(cat="model_checking",
+   text="Pool.tla models a host pool (fill: check under the read lock, re-check under the write lock, first connect synchronously, the rest concurrently, fillingStopped; connect ok/fail incl. the closed-late branch; HandleError; Close) with SizeBound, no dead connection kept, closed => empty and everything dialled eventually closed, one filler past the re-check, plus liveness; Lifecycle.tla models the refresh debouncer (debounce, refreshNow, three-way flusher select, stop), the event debouncer, the control connection's heartbeat/close/reconnect and Session.Close racing refreshes and a second Close (no deadlock, StopReturns, CloseReturns, NobodyStuck, GoroutinesExit), with each historical defect behind a Defect_* constant that TLC must refute when TRUE. Every gate-level edge of the small Pool graph is replayed on a real hostConnPool over the in-memory dialer and validated by TLC; TLC's deadlock counterexample and simulation walks are replayed on the real refreshDebouncer; randomized real Sessions (kills, node down/up, host removal, Close at a seeded point, double and concurrent Close, queries in flight) are checked after Close for hangs, leaked connections, leaked goroutines and refused queries, the observations validated by TLC; the thorough tier adds a -race build.",
+   note="Data-race freedom is only observed by the race detector on executed schedules (TLA+ interleaves named atomic steps, not the Go memory model); real-time bounds are watchdogs (>= 10x the driver timeouts), not proofs; node events are not injected in the random runs (1 s debounce constants).",
+   tech="TLA+ models checked by TLC incl. deadlock and liveness; exhaustive graph-walk replay into the real pool through gates; counterexample and simulation replay on the real debouncer; recorded session observations validated by TLC", ref="DESIGN.md section 7 C17"),
+})
+
 NA = {}
 DEFAULT_NA = "machinery under construction in this round; not yet claimed"
 
